@@ -157,6 +157,8 @@ inductive CAReply
   | foreign
   /-- a plain public key where a certificate was expected -/
   | plainKey
+  /-- `n` certificates for the request's key, a plain public key, `m` more certificates -/
+  | mixed (n : Nat) (m : Nat)
   | err
   | panic
 deriving DecidableEq, Repr
@@ -339,6 +341,10 @@ def caSign (k : Key) (w : World) : World × Trace × Except ErrKind (List (Optio
        .ok ((List.range n).map fun i => some ⟨w1.lastCert + 1 + i, k⟩))
     | .foreign => ({ w1 with lastCert := w1.lastCert + 1 }, [.caSign k true], .ok [some ⟨w1.lastCert + 1, .registered 3⟩])
     | .plainKey => (w1, [.caSign k true], .ok [none])
+    | .mixed n m =>
+      ({ w1 with lastCert := w1.lastCert + n + m }, [.caSign k true],
+       .ok ((List.range n).map (fun i => some ⟨w1.lastCert + 1 + i, k⟩) ++ [none] ++
+            (List.range m).map (fun i => some ⟨w1.lastCert + 1 + n + i, k⟩)))
     | .err => (w1, [.caSign k false], .error .signerSign)
     | .panic => (w1, [.caSign k false], .error .panic)
 
